@@ -78,13 +78,19 @@ pub fn alphabet() -> Vec<SatOp> {
 pub enum BackendKind {
     Cadical,
     External,
+    /// the stand-in program replying with 3 literals per `v` line after 700 bytes of comments, largest model
+    ExternalWrapped,
 }
 
 impl BackendKind {
+    pub fn from_name(n: &str) -> BackendKind {
+        [BackendKind::Cadical, BackendKind::External, BackendKind::ExternalWrapped].into_iter().find(|b| b.name() == n).unwrap_or(BackendKind::External)
+    }
     pub fn name(self) -> &'static str {
         match self {
             BackendKind::Cadical => "CadicalSolver",
             BackendKind::External => "ExternalSatSolver(fake_sat)",
+            BackendKind::ExternalWrapped => "ExternalSatSolver(fake_sat vwidth=3 pad=700 prefer=max)",
         }
     }
 }
@@ -93,11 +99,17 @@ fn make(b: BackendKind) -> Box<dyn SatSolver> {
     match b {
         BackendKind::Cadical => Box::<CadicalSolver>::default(),
         BackendKind::External => Box::new(ExternalSatSolver::new(fake_sat().to_string(), vec![])),
+        BackendKind::ExternalWrapped => Box::new(ExternalSatSolver::new(fake_sat().to_string(), vec!["vwidth=3".into(), "pad=700".into(), "prefer=max".into()])),
     }
 }
 
-/// truth table over variables 1..=7
+/// truth table over variables 1..=7; beyond that the harness's DPLL (structured long sessions)
 fn has_model(clauses: &[Vec<i32>], assum: &[i32]) -> bool {
+    let top = clauses.iter().flatten().chain(assum.iter()).map(|l| l.unsigned_abs()).max().unwrap_or(0);
+    if top > 7 {
+        let vars = crate::dpll::occurring_vars(clauses, assum);
+        return crate::dpll::is_sat(clauses, assum, &vars);
+    }
     (0..128u32).any(|bits| {
         let lit = |l: i32| {
             let v = bits >> (l.unsigned_abs() - 1) & 1 == 1;
@@ -109,6 +121,100 @@ fn has_model(clauses: &[Vec<i32>], assum: &[i32]) -> bool {
         };
         clauses.iter().all(|c| c.iter().any(|&l| lit(l))) && assum.iter().all(|&l| lit(l))
     })
+}
+
+/// Scripted long sessions on structured instances (tens to hundreds of variables, hundreds of
+/// clauses, 20+ solve calls on one solver object, clauses added between calls): a finite family, every
+/// member executed on every backend. Verdicts come from the harness's DPLL, models are verified.
+pub fn long_sessions(thorough: bool) -> Vec<(String, Vec<SatOp>)> {
+    let mut out: Vec<(String, Vec<SatOp>)> = vec![];
+    let sizes: Vec<i32> = if thorough { vec![12, 45, 130, 400] } else { vec![12, 45, 130] };
+    for &k in &sizes {
+        // implication chain 1 -> 2 -> ... -> k
+        let mut h = vec![];
+        for i in 1..k {
+            h.push(SatOp::Add(vec![-i, i + 1]));
+        }
+        for j in 0..8 {
+            let v = 1 + (j * (k - 1)) / 8;
+            h.push(SatOp::Assume(vec![v]));
+            h.push(SatOp::Assume(vec![v, -k]));
+            h.push(SatOp::Assume(vec![-v]));
+        }
+        h.push(SatOp::Add(vec![k / 2]));
+        h.push(SatOp::Assume(vec![-k]));
+        h.push(SatOp::Assume(vec![-(k / 2 - 1)]));
+        h.push(SatOp::Solve);
+        out.push((format!("chain({})", k), h));
+        // equivalence ladder i <-> i+1, then pinned in the middle
+        let mut h = vec![SatOp::Reserve(k as usize)];
+        for i in 1..k {
+            h.push(SatOp::Add(vec![-i, i + 1]));
+            h.push(SatOp::Add(vec![i, -(i + 1)]));
+        }
+        h.push(SatOp::Assume(vec![1, -k]));
+        h.push(SatOp::Assume(vec![-1]));
+        h.push(SatOp::Assume(vec![k]));
+        h.push(SatOp::Add(vec![k / 2]));
+        h.push(SatOp::Assume(vec![-1]));
+        h.push(SatOp::Solve);
+        out.push((format!("ladder({})", k), h));
+        // a top variable that occurs only negatively / only in assumptions / only reserved
+        let mut h = vec![SatOp::Add(vec![1, 2]), SatOp::Add(vec![-1, -k])];
+        h.push(SatOp::Solve);
+        h.push(SatOp::Assume(vec![k]));
+        h.push(SatOp::Assume(vec![k, 1]));
+        h.push(SatOp::Assume(vec![k + 3]));
+        h.push(SatOp::Reserve(k as usize + 9));
+        h.push(SatOp::Solve);
+        h.push(SatOp::Add(vec![-(k + 9)]));
+        h.push(SatOp::Assume(vec![k + 9]));
+        h.push(SatOp::Assume(vec![-(k + 9), k + 8]));
+        out.push((format!("sparse_top({})", k), h));
+    }
+    // exactly-one over m variables (pairwise), every single and every adjacent pair assumed
+    for m in if thorough { vec![6, 15, 24] } else { vec![6, 15] } {
+        let mut h = vec![SatOp::Add((1..=m).collect())];
+        for i in 1..=m {
+            for j in i + 1..=m {
+                h.push(SatOp::Add(vec![-i, -j]));
+            }
+        }
+        for i in 1..=m {
+            h.push(SatOp::Assume(vec![i]));
+            if i < m {
+                h.push(SatOp::Assume(vec![i, i + 1]));
+            }
+        }
+        h.push(SatOp::Assume((1..=m).map(|i| -i).collect()));
+        out.push((format!("exactly_one({})", m), h));
+    }
+    // pigeonhole p+1 into p (unsatisfiable), made satisfiable per call by an escape literal
+    for p in [3i32, 4] {
+        let var = |pg: i32, hole: i32| pg * p + hole + 1;
+        let esc = (p + 1) * p + 1;
+        let mut h = vec![];
+        for pg in 0..=p {
+            let mut c: Vec<i32> = (0..p).map(|hl| var(pg, hl)).collect();
+            c.push(esc);
+            h.push(SatOp::Add(c));
+        }
+        for hl in 0..p {
+            for a in 0..=p {
+                for b in a + 1..=p {
+                    h.push(SatOp::Add(vec![-var(a, hl), -var(b, hl)]));
+                }
+            }
+        }
+        h.push(SatOp::Solve);
+        h.push(SatOp::Assume(vec![-esc]));
+        h.push(SatOp::Assume(vec![esc]));
+        h.push(SatOp::Assume(vec![-esc, var(0, 0)]));
+        h.push(SatOp::Add(vec![-esc]));
+        h.push(SatOp::Solve);
+        out.push((format!("pigeonhole({}+1 into {})", p, p), h));
+    }
+    out
 }
 
 /// run one history on one backend; first deviation as (step, what, message)
@@ -324,8 +430,48 @@ pub fn run(tier: Tier) -> i32 {
             rep.add_violation(v);
         }
     }
-    rep.rule = "every history of exactly d operations ending in a solve call over an alphabet of 25 operations (13 clauses incl. the empty one and a clause on variable 5, reserve(2|6), solve, 9 assumption lists incl. an unseen variable and contradictory assumptions) is executed on a fresh solver object; at every solve step the verdict and the model are compared with a truth table over 7 variables (model satisfies every clause so far and every assumption of this call, is queryable for every declared variable; UNSAT only if the table has no model; never Unknown); histories shorter than d are prefixes; both backends are judged against the same table, hence against each other; distinct_nontrivial = histories".into();
-    rep.bounds = json!({"variables": 7, "max_solve_calls_per_history": 3});
+    // long sessions
+    let sessions = long_sessions(thorough);
+    let cells: Vec<(BackendKind, usize)> = [BackendKind::Cadical, BackendKind::External, BackendKind::ExternalWrapped].into_iter().flat_map(|b| (0..sessions.len()).map(move |i| (b, i))).collect();
+    let acc = cells
+        .par_iter()
+        .with_max_len(1)
+        .map(|&(b, i)| {
+            let mut acc = Acc::default();
+            let (name, h) = &sessions[i];
+            acc.histories += 1;
+            match run_history(b, h) {
+                Ok(n) => acc.solves += n as u64,
+                Err((step, what, msg)) => {
+                    let key = format!("backend={};scope=long;what={}", b.name(), what);
+                    let witness = &h[..=step];
+                    let shown: Vec<String> = witness.iter().rev().take(6).rev().map(|o| o.short()).collect();
+                    let v = Violation {
+                        property: "C15".into(),
+                        key: key.clone(),
+                        message: format!("{} session {} at operation {} (... {}): {}", b.name(), name, step + 1, shown.join(", "), msg.chars().take(600).collect::<String>()),
+                        case: json!({"engine": "satobject", "backend": b.name(), "history": witness.iter().map(|o| o.to_json()).collect::<Vec<_>>()}),
+                    };
+                    acc.violations.insert(key, (1, witness.len(), v));
+                }
+            }
+            acc
+        })
+        .reduce(Acc::default, Acc::merge);
+    rep.states += sessions.iter().map(|(_, h)| h.len() as u64).sum::<u64>() * 3;
+    rep.transitions += sessions.iter().map(|(_, h)| h.len() as u64).sum::<u64>() * 3;
+    rep.traces += acc.histories;
+    rep.evaluations += acc.solves;
+    rep.extra.insert(
+        "space:long sessions (structured instances up to 400+ variables / hundreds of clauses / 20+ solve calls per object) x 3 backends".into(),
+        json!({"sessions": sessions.iter().map(|(n, h)| json!({"name": n, "operations": h.len(), "solve_calls": h.iter().filter(|o| o.is_solve()).count()})).collect::<Vec<_>>(), "executions": acc.histories, "solve_steps_checked": acc.solves}),
+    );
+    for (_, (n, _, v)) in acc.violations {
+        rep.n_violations += n - 1;
+        rep.add_violation(v);
+    }
+    rep.rule = "every history of exactly d operations ending in a solve call over an alphabet of 25 operations (13 clauses incl. the empty one and a clause on variable 5, reserve(2|6), solve, 9 assumption lists incl. an unseen variable and contradictory assumptions) is executed on a fresh solver object; at every solve step the verdict and the model are compared with a truth table over 7 variables (model satisfies every clause so far and every assumption of this call, is queryable for every declared variable; UNSAT only if the table has no model; never Unknown); histories shorter than d are prefixes; both backends are judged against the same table, hence against each other; distinct_nontrivial = histories; in addition a finite family of scripted long sessions (chains, equivalence ladders, exactly-one, pigeonhole with an escape literal, sparse top variables) is run on three backends (CaDiCaL, the stand-in program, the stand-in program with wrapped model lines after 700 bytes of comments) with verdicts from the harness DPLL and every model verified".into();
+    rep.bounds = json!({"variables": 7, "max_solve_calls_per_history": 3, "long_sessions": "<= 400 variables, <= 30 solve calls"});
     rep.assumptions = vec!["the external backend is the harness's stand-in program (own DPLL, strict DIMACS parser); a value of None counts as not-true".into()];
     rep.finish()
 }
